@@ -842,6 +842,9 @@ class Interferogram(RichData):
         """Strip the lateral calibration and revert to pixels."""
         self.dx = 1.
         self.x, self.y = make_xy_grid(self.data.shape, dx=self.dx)
+        # the polar coordinates are derived from x, y: drop them so that they are recomputed
+        self._r = None
+        self._t = None
         self._latcaled = False
         return self
 
